@@ -473,10 +473,10 @@ def inclusion(run, R="INC"):
         found = False
         for bi, t in nav.calls():
             if (t.get("callee") or "") == "std::cmp::PartialEq::eq" and any(T.promoted_str(prog, nav, x) == ".." for x in t["args"]) and t["target"] is not None:
-                sw = T.switch_after(nav, t["target"], t["dest"]["l"])
+                sw = T.bool_test(nav, t)
                 if sw is None:
                     continue
-                swb = sw[2] if len(sw) > 2 else t["target"]
+                swb = sw[2] if len(sw) > 2 else sw[2]
                 reg = T.dominated_region(nav, sw[0], swb)
                 removes = [b3 for b3, t3 in T.region_calls(nav, reg) if (t3.get("callee") or "").endswith("::remove") or (t3.get("callee") or "").endswith("::pop")]
                 if not removes:
@@ -497,6 +497,14 @@ def inclusion(run, R="INC"):
                                         if report_error_in_region(nav, r2) and err_return_in_region(nav, r2):
                                             g_ok = True
                     okr = okr and g_ok
+                if not okr:
+                    # `if stack.pop().is_none() { error }`: the removal is the emptiness test
+                    from rules_sym import option_tests
+                    for sb_, some_, none_ in option_tests(nav, lambda d: d.startswith("Vec::pop(")):
+                        if sb_ in reg or nav.dominates(swb, sb_):
+                            r2 = T.dominated_region(nav, none_, sb_)
+                            if report_error_in_region(nav, r2) and err_return_in_region(nav, r2):
+                                okr = True
                 found = found or okr
         # every component of the result went through the `..` test: the stack that `..` pops from starts empty and is only
         # pushed to behind the `is not ..` edge
@@ -504,10 +512,10 @@ def inclusion(run, R="INC"):
         why_s = "collapse stack not found"
         for bi, t in nav.calls():
             if (t.get("callee") or "") == "std::cmp::PartialEq::eq" and any(T.promoted_str(prog, nav, x) == ".." for x in t["args"]) and t["target"] is not None:
-                sw = T.switch_after(nav, t["target"], t["dest"]["l"])
+                sw = T.bool_test(nav, t)
                 if sw is None:
                     continue
-                reg = T.dominated_region(nav, sw[0], t["target"])
+                reg = T.dominated_region(nav, sw[0], sw[2])
                 pops = [t3 for b3, t3 in T.region_calls(nav, reg) if (t3.get("callee") or "").endswith("::remove") or (t3.get("callee") or "").endswith("::pop")]
                 if not pops:
                     continue
@@ -545,7 +553,7 @@ def inclusion(run, R="INC"):
         ok = bool(isstd) and bool(ins)
         if ok:
             ib, it = isstd[0]
-            sw = T.switch_after(g, it["target"], it["dest"]["l"]) if it["target"] is not None else None
+            sw = T.bool_test(g, it)
             if sw is None:
                 ok = False
             else:
@@ -575,10 +583,10 @@ def inclusion(run, R="INC"):
         if ok:
             rb, rt = rec[0]
             cb, ct = seen_c[0]
-            sw = T.switch_after(pr, ct["target"], ct["dest"]["l"])
-            ok = sw is not None and pr.edge_dominates(ct["target"], sw[1], rb)
+            sw = T.bool_test(pr, ct)
+            ok = sw is not None and pr.edge_dominates(sw[2], sw[1], rb)
             if ok:
-                treg = T.dominated_region(pr, sw[0], ct["target"])
+                treg = T.dominated_region(pr, sw[0], sw[2])
                 ok = report_error_in_region(pr, treg) and err_return_in_region(pr, treg)
         run.check(ok, R, R + "|cycle", pr.loc(), "the recursive inclusion happens only on the `not already on the include stack` edge; the other edge reports and fails",
                   "parse_and_resolve_includes can recurse into a file that is already on the include stack (or no longer reports the cycle): inclusion cycles loop until the stack overflows")
@@ -593,16 +601,16 @@ def inclusion(run, R="INC"):
         oko = len(once_c) == 1 and bool(gh_calls)
         if oko:
             cb, ct = once_c[0]
-            sw = T.switch_after(pr, ct["target"], ct["dest"]["l"])
-            oko = sw is not None and all(pr.edge_dominates(ct["target"], sw[1], b) for b, _ in gh_calls)
+            sw = T.bool_test(pr, ct)
+            oko = sw is not None and all(pr.edge_dominates(sw[2], sw[1], b) for b, _ in gh_calls)
         run.check(oko, R, R + "|once|tested-first", pr.loc(), "a file marked #once is skipped before it is opened again", "the #once set is not consulted before opening the file")
         ins = [(bi, t) for bi, t in pr.calls() if (t.get("callee") or "").endswith("HashSet::<T, S, A>::insert") or ((t.get("callee") or "").endswith("::insert") and op_ in source_chain(pr, t["args"][0]))]
         anyc = [(bi, t) for bi, t in pr.calls() if (t.get("callee") or "") == "std::iter::Iterator::any"]
         oki = len(ins) == 1 and len(anyc) == 1
         if oki:
             ab, at = anyc[0]
-            sw = T.switch_after(pr, at["target"], at["dest"]["l"])
-            oki = sw is not None and pr.edge_dominates(at["target"], sw[0], ins[0][0])
+            sw = T.bool_test(pr, at)
+            oki = sw is not None and pr.edge_dominates(sw[2], sw[0], ins[0][0])
             # the closure looks for DirectiveOnce
             from mir import closure_of_origin
             cid = closure_of_origin(pr.origin_op(at["args"][1]))
@@ -779,56 +787,78 @@ def overlap_rules(run, R="OVL"):
             run.violation(R, R + "|neighbours", co.loc(), "mechanism not found: match on the binary search result in check_overlap")
             return
         ereg = T.dominated_region(co, err_entry, swb)
-        # neighbour comparisons
-        tests = {}
-        for b in sorted(ereg):
-            for st in co.blocks[b]["stmts"]:
-                if st["k"] == "assign" and st["rv"]["k"] == "binop" and st["rv"]["op"] == "Gt":
-                    l, r = _deep(co, st["rv"]["l"]), _deep(co, st["rv"]["r"])
-                    tt = co.blocks[b]["term"]
-                    if tt["k"] != "switch":
-                        continue
-                    if l == "(P2 Add P3)" and re.match(r"^Index::index\(P1\.entries, .*@Err\.0\)\.position$", r):
-                        tests["next"] = (b, tt["otherwise"])
-                    if re.match(r"^\(Index::index\(P1\.entries, \(.*@Err\.0 Sub 1_usize\)\)\.position Add Index::index\(P1\.entries, \(.*@Err\.0 Sub 1_usize\)\)\.size\)$", l) and r == "P2":
-                        tests["prev"] = (b, tt["otherwise"])
-        okn = "next" in tests and "prev" in tests
-        why = "comparisons found: %s" % sorted(tests)
+        # neighbour comparisons: the entry at the insertion index (next) and the one before it (prev), however they are
+        # fetched (indexing behind a bounds test, or slice::get)
+        I = r"[^()]*(?:\([^()]*(?:\([^()]*\)[^()]*)*\)[^()]*)*@Err\.0"
+        ENT = lambda idx: r"(?:Index::index\(P1\.entries, %s\)|slice::get\(P1\.entries, %s\)@Some\.0)" % (idx, idx)
+        NEXT_E = ENT(I)
+        PREV_E = ENT(r"\(" + I + r" Sub 1_usize\)")
+        cmp_next, cmp_prev = set(), set()
+        absent_edges = {}      # (block, target) -> "next" / "prev": edges on which that neighbour does not exist
+        for x in sorted(ereg):
+            tt = co.blocks[x]["term"]
+            if tt["k"] != "switch":
+                continue
+            ft = [tg for v, tg in tt["targets"] if v == "0"]
+            for st in co.blocks[x]["stmts"]:
+                if st["k"] == "assign" and st["rv"]["k"] == "binop" and op_local(tt["discr"]) == st["place"]["l"]:
+                    l, r, op = _deep(co, st["rv"]["l"], 8), _deep(co, st["rv"]["r"], 8), st["rv"]["op"]
+                    if op == "Gt" and l == "(P2 Add P3)" and re.fullmatch(NEXT_E + r"\.position", r):
+                        cmp_next.add(x)
+                    elif op == "Gt" and r == "P2" and re.fullmatch(r"\(" + PREV_E + r"\.position Add " + PREV_E + r"\.size\)", l):
+                        cmp_prev.add(x)
+                    elif op == "Lt" and re.fullmatch(I, l) and r == "Vec::len(P1.entries)" and ft:
+                        absent_edges[(x, ft[0])] = "next"
+                    elif op == "Gt" and re.fullmatch(I, l) and r == "0_usize" and ft:
+                        absent_edges[(x, ft[0])] = "prev"
+                    elif op == "Lt" and re.fullmatch(r"\(" + I + r" Sub 1_usize\)", l) and r == "Vec::len(P1.entries)" and ft:
+                        absent_edges[(x, ft[0])] = "prev"
+        from rules_sym import option_tests
+        for sb_, some_, none_ in option_tests(co, lambda d: bool(re.fullmatch(r"slice::get\(P1\.entries, " + I + r"\)", d))):
+            absent_edges[(sb_, none_)] = "next"
+        for sb_, some_, none_ in option_tests(co, lambda d: bool(re.fullmatch(r"slice::get\(P1\.entries, \(" + I + r" Sub 1_usize\)\)", d))):
+            absent_edges[(sb_, none_)] = "prev"
+        okn = bool(cmp_next) and bool(cmp_prev)
+        why = "comparisons found: next=%d prev=%d" % (len(cmp_next), len(cmp_prev))
         if okn:
-            for k_, (b, te) in tests.items():
-                reg = T.dominated_region(co, te, b)
-                some_ret = any(st["k"] == "assign" and st["rv"]["k"] == "agg" and st["rv"].get("variant") == "Some" for x in reg for st in co.blocks[x]["stmts"])
-                if not some_ret:
-                    okn = False
-                    why = "the `%s` neighbour comparison does not answer with the overlapping entry" % k_
+            for k_, blocks in (("next", cmp_next), ("prev", cmp_prev)):
+                for b in blocks:
+                    reg = T.dominated_region(co, co.blocks[b]["term"]["otherwise"], b)
+                    if not any(st["k"] == "assign" and st["rv"]["k"] == "agg" and st["rv"].get("variant") == "Some" for x in reg for st in co.blocks[x]["stmts"]):
+                        okn = False
+                        why = "the `%s` neighbour comparison does not answer with the overlapping entry" % k_
         if okn:
-            # guards: `i < len` around next, `i > 0` around prev; both guard switches dominate every `None` answer of this arm
-            guards = []
-            for k_, (b, te) in tests.items():
-                g = None
-                for x in sorted(ereg):
-                    tt = co.blocks[x]["term"]
-                    if tt["k"] == "switch" and x != b and co.dominates(x, b):
-                        for st in co.blocks[x]["stmts"]:
-                            if st["k"] == "assign" and st["rv"]["k"] == "binop" and ((k_ == "next" and st["rv"]["op"] == "Lt" and "Vec::len(P1.entries)" == _deep(co, st["rv"]["r"])) or (k_ == "prev" and st["rv"]["op"] == "Gt" and _deep(co, st["rv"]["r"]) == "0_usize")):
-                                g = x
-                guards.append(g)
-            okn = all(g is not None for g in guards)
-            why = "index guards of the neighbour comparisons not found"
-            if okn:
-                # blocks only reachable when size == 0 are exempt (entries-nonzero makes them dead)
-                exempt = set()
-                for bi, si, st in co.stmts():
-                    if st["k"] == "assign" and st["rv"]["k"] == "binop" and st["rv"]["op"] == "Eq" and {_deep(co, st["rv"]["l"]), _deep(co, st["rv"]["r"])} == {"P3", "0_usize"}:
-                        tt = co.blocks[bi]["term"]
-                        if tt["k"] == "switch":
-                            exempt |= T.dominated_region(co, tt["otherwise"], bi)
-                for x in sorted(ereg - exempt):
-                    for st in co.blocks[x]["stmts"]:
-                        if st["k"] == "assign" and st["rv"]["k"] == "agg" and st["rv"].get("variant") == "None":
-                            if not all(co.dominates(g, x) for g in guards):
-                                okn = False
-                                why = "a `no overlap` answer at line %d can be given without having looked at both neighbours" % st["span"]["line"]
+            # blocks only reachable when size == 0 are exempt (entries-nonzero makes them dead)
+            exempt = set()
+            for bi, si, st in co.stmts():
+                if st["k"] == "assign" and st["rv"]["k"] == "binop" and st["rv"]["op"] == "Eq" and {_deep(co, st["rv"]["l"]), _deep(co, st["rv"]["r"])} == {"P3", "0_usize"}:
+                    tt = co.blocks[bi]["term"]
+                    if tt["k"] == "switch":
+                        exempt |= T.dominated_region(co, tt["otherwise"], bi)
+            # path search: (block, next settled, prev settled); a neighbour is settled once compared or known absent
+            seen = set()
+            work = [(err_entry, 0, 0)]
+            while work:
+                x, nx, pv = work.pop()
+                if (x, nx, pv) in seen or x in exempt or x not in ereg:
+                    continue
+                seen.add((x, nx, pv))
+                if x in cmp_next:
+                    nx = 1
+                if x in cmp_prev:
+                    pv = 1
+                for st in co.blocks[x]["stmts"]:
+                    if st["k"] == "assign" and st["rv"]["k"] == "agg" and st["rv"].get("variant") == "None" and not (nx and pv):
+                        okn = False
+                        why = "a `no overlap` answer at line %d can be given without having settled the %s neighbour" % (st["span"]["line"], "next" if not nx else "previous")
+                for s_ in co.succs(x):
+                    n2, p2 = nx, pv
+                    a_ = absent_edges.get((x, s_))
+                    if a_ == "next":
+                        n2 = 1
+                    elif a_ == "prev":
+                        p2 = 1
+                    work.append((s_, n2, p2))
         run.check(okn, R, R + "|neighbours", co.loc(), "when no entry starts at the position, `no overlap` is only answered after comparing with the next entry (position + size > next.position) and the previous one (prev.position + prev.size > position)",
                   "OverlapChecker::check_overlap: %s" % why)
         # same position: overlap when both have bits
@@ -966,6 +996,32 @@ def alignment_rules(run, R="ALIGN"):
                 n += 1
                 d = _deep(f, t["args"][2], 10)
                 ok = "addr_start" in d and "addr_unit" in d and "cur_position" in d
+                if not ok:
+                    # the absolute address may be computed by a local helper: look at what it (and the argument) reads
+                    names = set()
+                    for l_, pr_ in _read_places(f, t["args"][2]):
+                        names |= {x for x in pr_ if isinstance(x, str)}
+                    o_ = f.origin_op(t["args"][2])
+                    while o_ and o_[0] in ("ref", "cast", "place"):
+                        o_ = o_[1]
+                    hops = 0
+                    while o_ and o_[0] == "call" and hops < 4:
+                        hops += 1
+                        h_ = prog.fn(o_[1].get("resolved") or "")
+                        if h_ is not None and o_[1].get("resolved_local") and not (o_[1].get("resolved") or "").endswith("BigInt::checked_add") and "util::bigint" not in (o_[1].get("resolved") or ""):
+                            for b9, s9, st9 in h_.stmts():
+                                if st9["k"] == "assign":
+                                    from mir import rv_places as _rvp
+                                    for pl9 in _rvp(st9["rv"]):
+                                        names |= {pr9["name"] for pr9 in pl9["p"] if isinstance(pr9, dict) and "f" in pr9}
+                            for a9 in o_[1]["args"]:
+                                for l_, pr_ in _read_places(f, a9):
+                                    names |= {x for x in pr_ if isinstance(x, str)}
+                            break
+                        o_ = f.origin_op(o_[1]["args"][0]) if o_[1]["args"] else None
+                        while o_ and o_[0] in ("ref", "cast", "place"):
+                            o_ = o_[1]
+                    ok = {"addr_start", "addr_unit", "cur_position"} <= names
                 run.check(ok, R, "%s|absolute|%s" % (R, root), f.loc(t["span"]), "%s aligns addr_start x addr_unit + position" % root.rsplit("::", 1)[-1],
                           "%s asks for the padding of `%s`, expected the absolute bit address (addr_start x addr_unit + cur_position)" % (root, d[:160]))
     run.floor(R, "alignment computations", n, 2)
